@@ -252,7 +252,13 @@ func (c *c03ctx) passA(f *fixture, w *writerBuf) {
 					for ln := uint32(1); b+ln <= p.Length; ln++ {
 						rc := readCase{f: f, pi: pi, rs: rs, capName: cp.n, capV: cp.v, begin: b, length: ln,
 							rank: f.ord<<32 | rs<<24 | int64(ci)<<22 | int64(pi)<<16 | 1<<12 | int64(b)<<6 | int64(ln)}
-						c.judge(rc, w.serve(p, cache, rs, b, ln))
+						sv := w.serve(p, cache, rs, b, ln)
+						c.judge(rc, sv)
+						if sv.panicV != "" {
+							// a panic inside the cache's loader leaves the cache unusable (its item stays locked):
+							// go on with a fresh one, the poisoned one is abandoned
+							cache = piececache.New(cp.v, time.Hour, 1)
+						}
 					}
 				}
 			}
@@ -281,6 +287,7 @@ func (c *c03ctx) passB(t *testing.T, f *fixture, pi int, rs int64, w *writerBuf,
 			var hgap [3]int // index into gaps, before read k (k>=1)
 			exec := func(n int) {
 				cache := piececache.New(cp.v, ttl, 1)
+				poisoned := false
 				for k := 0; k < n; k++ {
 					r := ranges[hist[k]]
 					if k > 0 && gaps[hgap[k]] > 0 {
@@ -319,8 +326,14 @@ func (c *c03ctx) passB(t *testing.T, f *fixture, pi int, rs int64, w *writerBuf,
 						}
 					}
 					c.judge(rc, s)
+					if s.panicV != "" {
+						poisoned = true
+						break // the cache is unusable after a panic in its loader: this history ends here
+					}
 				}
-				cache.Close()
+				if !poisoned {
+					cache.Close()
+				}
 				st.histories++
 			}
 			var run func(depth, n int)
@@ -696,7 +709,11 @@ func (c *c03ctx) realScale(rep *core.Report) {
 							}
 							rc := readCase{f: f, pi: pi, rs: rs, capName: cp.n, capV: cp.v, begin: uint32(b), length: uint32(ln),
 								rank: f.ord<<32 | int64(ci)<<22 | int64(pi)<<16 | n}
-							c.judge(rc, w.serve(p, cache, rs, uint32(b), uint32(ln)))
+							sv := w.serve(p, cache, rs, uint32(b), uint32(ln))
+							c.judge(rc, sv)
+							if sv.panicV != "" {
+								cache = piececache.New(cp.v, time.Hour, 1)
+							}
 							n++
 						}
 					}
